@@ -1,1 +1,480 @@
-//! placeholder
+//! `enum parse` — C14: every sequence of at most N lines over a token alphabet, against
+//! an independent reference parser written from the README grammar and the bundle rules.
+use std::collections::{BTreeMap, BTreeSet};
+use std::sync::atomic::{AtomicBool, AtomicU64, Ordering};
+use std::sync::{Arc, Mutex};
+use std::time::{Duration, Instant};
+
+use serde_json::{json, Value};
+
+use crate::bundle;
+use crate::report::{Report, Violation};
+use crate::rule::{self, ParseError, Rule};
+
+// ---------------------------------------------------------------------------
+// Reference parser
+
+#[derive(Clone, Debug, PartialEq, Eq, PartialOrd, Ord)]
+pub enum BundleDefect
+{
+    Empty,
+    EmptyLines(Vec<usize>),
+    Contradiction(usize, usize),
+    WrongIndent(usize),
+    /// the indentation is broken, so which siblings collide depends on how the broken part is
+    /// read: ruler may legitimately report a contradiction found before the bad line
+    AnyContradiction,
+}
+
+#[derive(Clone, Debug, PartialEq, Eq)]
+pub enum RefResult
+{
+    Ok(Vec<(Vec<String>, Vec<String>, Vec<String>)>),
+    /// rule-level error: kind, 1-based line
+    Rule(&'static str, usize),
+    /// any of these bundle errors is acceptable (section-relative, 0-based indices)
+    Bundle(BTreeSet<BundleDefect>),
+}
+
+#[derive(Clone, Debug, PartialEq, Eq, PartialOrd, Ord)]
+enum Tree
+{
+    Leaf,
+    Parent(BTreeMap<String, Tree>),
+}
+
+fn split_indent(line: &str) -> (usize, String)
+{
+    let level = line.chars().take_while(|c| *c == '\t').count();
+    (level, line.chars().skip(level).collect())
+}
+
+/// Reference bundle semantics: returns the paths, or the set of defects present.
+fn ref_bundle(lines: &[&str]) -> Result<Vec<String>, BTreeSet<BundleDefect>>
+{
+    let mut defects = BTreeSet::new();
+    if lines.is_empty()
+    {
+        defects.insert(BundleDefect::Empty);
+        return Err(defects);
+    }
+    let blank: Vec<usize> = lines.iter().enumerate().filter(|(_, l)| l.chars().all(|c| c == '\t')).map(|(i, _)| i).collect();
+    if !blank.is_empty()
+    {
+        defects.insert(BundleDefect::EmptyLines(blank));
+        return Err(defects);
+    }
+    let parsed: Vec<(usize, String)> = lines.iter().map(|l| split_indent(l)).collect();
+    // indentation may grow by at most one level from one line to the next; the first line is at level 0
+    for k in 0..parsed.len()
+    {
+        let prev = if k == 0 { None } else { Some(parsed[k - 1].0) };
+        let ok = match prev { None => parsed[k].0 == 0, Some(p) => parsed[k].0 <= p + 1 };
+        if !ok { defects.insert(BundleDefect::WrongIndent(k)); }
+    }
+    if !defects.is_empty()
+    {
+        defects.insert(BundleDefect::AnyContradiction);
+        return Err(defects);
+    }
+    // build the tree; siblings with the same name must be structurally identical
+    fn build(items: &[(usize, String, usize)], level: usize, defects: &mut BTreeSet<BundleDefect>) -> BTreeMap<String, Tree>
+    {
+        let mut out: BTreeMap<String, (Tree, usize)> = BTreeMap::new();
+        let mut i = 0;
+        while i < items.len()
+        {
+            let mut j = i + 1;
+            while j < items.len() && items[j].0 > level { j += 1; }
+            let node = if j > i + 1 { Tree::Parent(build(&items[i + 1..j], level + 1, defects)) } else { Tree::Leaf };
+            match out.get(&items[i].1)
+            {
+                Some((t, first)) => { if *t != node { defects.insert(BundleDefect::Contradiction(*first, items[i].2)); } },
+                None => { out.insert(items[i].1.clone(), (node, items[i].2)); },
+            }
+            i = j;
+        }
+        out.into_iter().map(|(k, (t, _))| (k, t)).collect()
+    }
+    let items: Vec<(usize, String, usize)> = parsed.into_iter().enumerate().map(|(i, (l, t))| (l, t, i)).collect();
+    let tree = build(&items, 0, &mut defects);
+    if !defects.is_empty()
+    {
+        return Err(defects);
+    }
+    fn paths(t: &BTreeMap<String, Tree>, prefix: &str, out: &mut Vec<String>)
+    {
+        for (k, v) in t
+        {
+            match v
+            {
+                Tree::Leaf => out.push(format!("{}{}", prefix, k)),
+                Tree::Parent(c) => paths(c, &format!("{}{}/", prefix, k), out),
+            }
+        }
+    }
+    let mut out = vec![];
+    paths(&tree, "", &mut out);
+    Ok(out)
+}
+
+/// Reference reading of the documented format.  Lines are the pieces between '\n'.
+pub fn ref_parse(content: &str) -> RefResult
+{
+    let lines: Vec<&str> = content.split('\n').collect();
+    let n = lines.len();
+    let mut rules = vec![];
+    let mut i = 0;
+    loop
+    {
+        // blank lines between rules
+        while i < n && lines[i].is_empty() { i += 1; }
+        if i >= n { return RefResult::Ok(rules); }
+        if lines[i] == ":" { return RefResult::Rule("UnexpectedExtraColon", i + 1); }
+        let mut sections: Vec<Vec<&str>> = vec![];
+        for (sec, eof_kind) in [(0, "UnexpectedEndOfFileMidTargets"), (1, "UnexpectedEndOfFileMidSources"), (2, "UnexpectedEndOfFileMidCommand")]
+        {
+            let _ = sec;
+            let mut body = vec![];
+            loop
+            {
+                if i >= n { return RefResult::Rule(eof_kind, n + 1); }
+                let l = lines[i];
+                if l.is_empty() { return RefResult::Rule("UnexpectedEmptyLine", i + 1); }
+                i += 1;
+                if l == ":" { break; }
+                body.push(l);
+            }
+            sections.push(body);
+        }
+        let targets = ref_bundle(&sections[0]);
+        let targets = match targets { Ok(t) => t, Err(d) => return RefResult::Bundle(d) };
+        let sources = match ref_bundle(&sections[1]) { Ok(t) => t, Err(d) => return RefResult::Bundle(d) };
+        rules.push((targets, sources, sections[2].iter().map(|s| s.to_string()).collect()));
+    }
+}
+
+fn bundle_defect_of(e: &bundle::ParseError) -> BundleDefect
+{
+    match e
+    {
+        bundle::ParseError::Empty => BundleDefect::Empty,
+        bundle::ParseError::ContainsEmptyLines(v) => BundleDefect::EmptyLines(v.clone()),
+        bundle::ParseError::Contradiction(a, b) => BundleDefect::Contradiction(*a, *b),
+        bundle::ParseError::WrongIndent(i) => BundleDefect::WrongIndent(*i),
+    }
+}
+
+fn rule_err(e: &ParseError) -> Option<(&'static str, &String, usize)>
+{
+    match e
+    {
+        ParseError::UnexpectedEmptyLine(f, l) => Some(("UnexpectedEmptyLine", f, *l)),
+        ParseError::UnexpectedExtraColon(f, l) => Some(("UnexpectedExtraColon", f, *l)),
+        ParseError::UnexpectedEndOfFileMidTargets(f, l) => Some(("UnexpectedEndOfFileMidTargets", f, *l)),
+        ParseError::UnexpectedEndOfFileMidSources(f, l) => Some(("UnexpectedEndOfFileMidSources", f, *l)),
+        ParseError::UnexpectedEndOfFileMidCommand(f, l) => Some(("UnexpectedEndOfFileMidCommand", f, *l)),
+        ParseError::BundleError(_, _) => None,
+    }
+}
+
+/// Compare ruler's parse of one file with the reference; None = agree.
+pub fn compare(file: &str, got: &Result<Vec<Rule>, ParseError>, want: &RefResult) -> Option<String>
+{
+    match (got, want)
+    {
+        (Ok(rs), RefResult::Ok(ws)) =>
+        {
+            if rs.len() != ws.len() { return Some(format!("{} rules parsed, {} written", rs.len(), ws.len())); }
+            for (r, w) in rs.iter().zip(ws.iter())
+            {
+                if r.targets != w.0 { return Some(format!("targets {:?} instead of {:?}", r.targets, w.0)); }
+                if r.sources != w.1 { return Some(format!("sources {:?} instead of {:?}", r.sources, w.1)); }
+                if r.command != w.2 { return Some(format!("command {:?} instead of {:?}", r.command, w.2)); }
+            }
+            None
+        },
+        (Ok(rs), w) => Some(format!("malformed text accepted as {} rules; expected {:?}", rs.len(), w)),
+        (Err(e), RefResult::Ok(_)) => Some(format!("well-formed text rejected with {:?}", e)),
+        (Err(e), RefResult::Rule(kind, line)) =>
+        {
+            match rule_err(e)
+            {
+                Some((k, f, l)) =>
+                {
+                    if f != file { return Some(format!("error names file {:?} instead of {:?}", f, file)); }
+                    if k != *kind { return Some(format!("error kind {} instead of {}", k, kind)); }
+                    if l != *line { return Some(format!("{} reported at line {} instead of {}", k, l, line)); }
+                    None
+                },
+                None => Some(format!("bundle error {:?} where {} at line {} is expected", e, kind, line)),
+            }
+        },
+        (Err(e), RefResult::Bundle(ds)) =>
+        {
+            match e
+            {
+                ParseError::BundleError(f, be) =>
+                {
+                    if f != file { return Some(format!("error names file {:?} instead of {:?}", f, file)); }
+                    let d = bundle_defect_of(be);
+                    let ok = ds.contains(&d) || (matches!(d, BundleDefect::Contradiction(..)) && ds.contains(&BundleDefect::AnyContradiction));
+                    if !ok { return Some(format!("bundle error {:?} does not match any defect present {:?}", be, ds)); }
+                    None
+                },
+                other => Some(format!("error {:?} where a bundle error {:?} is expected", other, ds)),
+            }
+        },
+    }
+}
+
+pub fn check_text(text: &str) -> Option<String>
+{
+    let t = text.to_string();
+    let got = match std::panic::catch_unwind(move || rule::parse("f.rules".to_string(), t))
+    {
+        Ok(r) => r,
+        Err(_) => return Some("parser panicked".to_string()),
+    };
+    compare("f.rules", &got, &ref_parse(text))
+}
+
+/// parse_all over two files: concatenation at rule level, errors name the right file
+pub fn check_split(a: &str, b: &str) -> Option<String>
+{
+    let (a2, b2) = (a.to_string(), b.to_string());
+    let got = match std::panic::catch_unwind(move || rule::parse_all(vec![("one.rules".to_string(), a2), ("two.rules".to_string(), b2)]))
+    {
+        Ok(r) => r,
+        Err(_) => return Some("parse_all panicked".to_string()),
+    };
+    let ra = ref_parse(a);
+    match &ra
+    {
+        RefResult::Ok(r1) =>
+        {
+            let rb = ref_parse(b);
+            match &rb
+            {
+                RefResult::Ok(r2) =>
+                {
+                    let mut all = r1.clone();
+                    all.extend(r2.iter().cloned());
+                    compare("", &got, &RefResult::Ok(all))
+                },
+                other => compare("two.rules", &got, other),
+            }
+        },
+        other => compare("one.rules", &got, other),
+    }
+}
+
+// ---------------------------------------------------------------------------
+// Universe
+
+pub const ALPHABET: [&str; 11] = ["", ":", "a", "b", "\ta", "\tb", "\t\ta", "\t", ";", "a\r", "é"];
+
+fn text_of(idx: &[usize], final_newline: bool) -> String
+{
+    let mut s = idx.iter().map(|i| ALPHABET[*i]).collect::<Vec<_>>().join("\n");
+    if final_newline { s.push('\n'); }
+    s
+}
+
+struct Found
+{
+    map: Mutex<BTreeMap<String, String>>,
+}
+
+fn record(found: &Found, msg: String, text: &str)
+{
+    let class: String = msg.split(|c: char| c == '[' || c == '{' || c == '(' || c.is_ascii_digit()).next().unwrap_or("").trim().to_string();
+    let mut m = found.map.lock().unwrap();
+    let better = match m.get(&class) { Some(t) => t.len() > text.len(), None => true };
+    if better { m.insert(class, text.to_string()); }
+}
+
+pub fn run(rep: &mut Report, tier: &str)
+{
+    let thorough = tier == "thorough";
+    let max_lines = if thorough { 7 } else { 6 };
+    let threads = crate::cli::threads();
+    let found = Arc::new(Found { map: Mutex::new(BTreeMap::new()) });
+    let count = Arc::new(AtomicU64::new(0));
+    let ok_count = Arc::new(AtomicU64::new(0));
+    let err_kinds: Arc<Mutex<BTreeMap<String, u64>>> = Arc::new(Mutex::new(BTreeMap::new()));
+    let complete = Arc::new(AtomicBool::new(true));
+    let deadline = Instant::now() + Duration::from_secs(if thorough { 400 } else { 35 });
+    let a = ALPHABET.len() as u64;
+    let mut per = vec![];
+    for len in 0..=max_lines
+    {
+        let total = a.pow(len as u32);
+        let next = Arc::new(AtomicU64::new(0));
+        let mut hs = vec![];
+        let before = count.load(Ordering::SeqCst);
+        for _ in 0..threads
+        {
+            let next = next.clone();
+            let found = found.clone();
+            let count = count.clone();
+            let ok_count = ok_count.clone();
+            let err_kinds = err_kinds.clone();
+            let complete = complete.clone();
+            hs.push(std::thread::spawn(move ||
+            {
+                let mut local: BTreeMap<String, u64> = BTreeMap::new();
+                loop
+                {
+                    let start = next.fetch_add(2048, Ordering::SeqCst);
+                    if start >= total { break; }
+                    if Instant::now() >= deadline { complete.store(false, Ordering::SeqCst); break; }
+                    for k in start..(start + 2048).min(total)
+                    {
+                        let mut idx = vec![0usize; len];
+                        let mut kk = k;
+                        for p in 0..len { idx[p] = (kk % a) as usize; kk /= a; }
+                        for nl in [false, true]
+                        {
+                            let text = text_of(&idx, nl);
+                            count.fetch_add(1, Ordering::Relaxed);
+                            match ref_parse(&text)
+                            {
+                                RefResult::Ok(r) => { if !r.is_empty() { ok_count.fetch_add(1, Ordering::Relaxed); } *local.entry("Ok".into()).or_insert(0) += 1; },
+                                RefResult::Rule(k, _) => { *local.entry(k.to_string()).or_insert(0) += 1; },
+                                RefResult::Bundle(d) => { for x in d { let n = match x { BundleDefect::Empty => "Bundle:Empty", BundleDefect::EmptyLines(_) => "Bundle:ContainsEmptyLines", BundleDefect::Contradiction(..) => "Bundle:Contradiction", BundleDefect::WrongIndent(_) => "Bundle:WrongIndent", BundleDefect::AnyContradiction => "Bundle:(contradiction-or-indent)" }; *local.entry(n.into()).or_insert(0) += 1; } },
+                            }
+                            if let Some(msg) = check_text(&text)
+                            {
+                                record(&found, msg, &text);
+                            }
+                        }
+                    }
+                }
+                let mut g = err_kinds.lock().unwrap();
+                for (k, v) in local { *g.entry(k).or_insert(0) += v; }
+            }));
+        }
+        for h in hs { let _ = h.join(); }
+        per.push(json!({"lines": len, "texts": 2 * total, "done": count.load(Ordering::SeqCst) - before}));
+    }
+    // two-file splits: every text of <= 5 lines (no final-newline variation) split at every line boundary
+    let split_len = if thorough { 6 } else { 5 };
+    let mut splits = 0u64;
+    {
+        let total = a.pow(split_len as u32);
+        let next = Arc::new(AtomicU64::new(0));
+        let splits_c = Arc::new(AtomicU64::new(0));
+        let mut hs = vec![];
+        for _ in 0..threads
+        {
+            let next = next.clone();
+            let found = found.clone();
+            let splits_c = splits_c.clone();
+            let complete = complete.clone();
+            hs.push(std::thread::spawn(move ||
+            {
+                loop
+                {
+                    let start = next.fetch_add(1024, Ordering::SeqCst);
+                    if start >= total { break; }
+                    if Instant::now() >= deadline { complete.store(false, Ordering::SeqCst); break; }
+                    for k in start..(start + 1024).min(total)
+                    {
+                        let mut idx = vec![0usize; split_len];
+                        let mut kk = k;
+                        for p in 0..split_len { idx[p] = (kk % a) as usize; kk /= a; }
+                        for cut in 0..=split_len
+                        {
+                            let ta = text_of(&idx[..cut], cut > 0);
+                            let tb = text_of(&idx[cut..], true);
+                            splits_c.fetch_add(1, Ordering::Relaxed);
+                            if let Some(msg) = check_split(&ta, &tb)
+                            {
+                                record(&found, format!("two files: {}", msg), &format!("{}<<<FILE-BOUNDARY>>>{}", ta, tb));
+                            }
+                        }
+                    }
+                }
+            }));
+        }
+        for h in hs { let _ = h.join(); }
+        splits = splits_c.load(Ordering::SeqCst);
+    }
+    // rendered rule sets under formatting choices, and every single-edit corruption of them
+    let mut rendered = 0u64;
+    for base in rendered_bases()
+    {
+        let lines: Vec<&str> = base.split('\n').collect();
+        let mut variants: Vec<String> = vec![base.clone(), format!("\n\n{}", base), format!("{}\n\n", base), base.trim_end_matches('\n').to_string()];
+        for i in 0..lines.len()
+        {
+            // deleted line, inserted blank line, inserted ':', truncated here
+            let mut d = lines.clone(); d.remove(i); variants.push(d.join("\n"));
+            let mut b = lines.clone(); b.insert(i, ""); variants.push(b.join("\n"));
+            let mut c = lines.clone(); c.insert(i, ":"); variants.push(c.join("\n"));
+            let mut t = lines.clone(); t.insert(i, "\t"); variants.push(t.join("\n"));
+            variants.push(lines[..i].join("\n"));
+            variants.push(format!("{}\n", lines[..i].join("\n")));
+        }
+        for v in variants
+        {
+            rendered += 1;
+            if let Some(msg) = check_text(&v) { record(&found, msg, &v); }
+        }
+    }
+    let n = count.load(Ordering::SeqCst);
+    rep.set("states", json!(n));
+    rep.set("transitions", json!(n + splits + rendered));
+    rep.set("traces_validated_against_impl", json!(n + splits + rendered));
+    rep.set("evaluations", json!(n + splits + rendered));
+    rep.set("distinct_nontrivial", json!(ok_count.load(Ordering::SeqCst)));
+    rep.set("texts_with_at_least_one_rule", json!(ok_count.load(Ordering::SeqCst)));
+    rep.set("reference_outcome_classes", json!(*err_kinds.lock().unwrap()));
+    rep.set("two_file_splits", json!(splits));
+    rep.set("rendered_and_corrupted_texts", json!(rendered));
+    rep.set("per_length", json!(per));
+    rep.set("exhaustive", json!(complete.load(Ordering::SeqCst)));
+    rep.set("rule", json!(format!("every sequence of <= {} lines over {:?}, with and without final newline; every split of every {}-line sequence into two files; rendered rule sets and all their single-line edits", max_lines, ALPHABET, split_len)));
+    rep.push_sample(json!("a\n:\n\ta\n:\n;\n:\n"));
+    rep.push_sample(json!("a\n\tb\n\tb\n:\nb\n:\n:"));
+    for (class, text) in found.map.lock().unwrap().iter()
+    {
+        let detail = if text.contains("<<<FILE-BOUNDARY>>>")
+        {
+            let p: Vec<&str> = text.split("<<<FILE-BOUNDARY>>>").collect();
+            check_split(p[0], p[1]).unwrap_or_default()
+        }
+        else { check_text(text).unwrap_or_default() };
+        rep.violation(Violation
+        {
+            property: "C14".into(),
+            signature: format!("C14:parse:{}", class),
+            summary: format!("{} — text {:?}", detail, text),
+            replay: json!({"engine": "parse", "text": text}),
+        });
+    }
+}
+
+fn rendered_bases() -> Vec<String>
+{
+    vec![
+        "build/game\n:\nsrc/game.h\nsrc/game.cpp\n:\nc++\nsrc/game.cpp\n-o build/game\n:\n".to_string(),
+        "build\n\tgame\n\tlib\n\t\tm.o\n:\nsrc\n\tgame.h\n\tgame.cpp\n:\nc++\n;\nstrip\n:\n\nout\n:\nbuild\n\tgame\n:\ncp\n:\n".to_string(),
+        "b\na\nb\n:\nz\n\ty\n\tx\nz\n\tx\n\ty\n:\ncmd\n:\n".to_string(),
+        "t\n:\ns\n:\n:\n".to_string(),
+    ]
+}
+
+pub fn replay(v: &Value) -> i32
+{
+    let text = v["text"].as_str().unwrap_or("").to_string();
+    let r = if text.contains("<<<FILE-BOUNDARY>>>")
+    {
+        let p: Vec<&str> = text.split("<<<FILE-BOUNDARY>>>").collect();
+        check_split(p[0], p[1])
+    }
+    else { check_text(&text) };
+    println!("text {:?}\nreference: {:?}", text, ref_parse(&text));
+    match r { Some(m) => { println!("{}", m); 1 }, None => 0 }
+}
